@@ -33,8 +33,14 @@ type Program struct {
 	loadSecs  float64
 	root      string
 	funcByKey map[string]*ssa.Function
+	cgOnce    sync.Once
+	gwCache   map[string]map[*ssa.Function]bool
+	cgEdges   map[*ssa.Function][]*ssa.Function
+	cgDyn     []*ssa.Function
+	cgDynFns  []*ssa.Function
+	cgIsDyn   map[*ssa.Function]bool
 	effCache  map[*ssa.Function]*Effect
-	effBusy   map[*ssa.Function]bool
+	dirCache  map[*ssa.Function]*Effect
 }
 
 func loadProgram(root string, patterns []string) (*Program, error) {
@@ -244,7 +250,7 @@ func (P *Program) implementers(t types.Type) []types.Type {
 	if !ok || it.NumMethods() == 0 {
 		return nil
 	}
-	key := typeName(t)
+	key := types.TypeString(t, nil)
 	P.mu.Lock()
 	if r, ok := P.implCache[key]; ok {
 		P.mu.Unlock()
